@@ -4,12 +4,29 @@
 #[folder = "../fixture_embed"]
 pub struct Fixture;
 
+/// a second, unrelated embedded folder: two embedded types live in one process
+#[derive(rust_embed::RustEmbed, Debug)]
+#[folder = "../fixture_embed2"]
+pub struct Fixture2;
+
+pub fn fixture2_dir() -> std::path::PathBuf {
+    crate::engine::verif_dir().join("fixture_embed2")
+}
+
 pub fn fixture_dir() -> std::path::PathBuf {
     crate::engine::verif_dir().join("fixture_embed")
 }
 
 /// independent model of the fixture: raw std::fs walk of the fixture folder
 pub fn fixture_tree() -> crate::model::Tree {
+    tree_of_dir(&fixture_dir())
+}
+
+pub fn fixture2_tree() -> crate::model::Tree {
+    tree_of_dir(&fixture2_dir())
+}
+
+fn tree_of_dir(dir: &std::path::Path) -> crate::model::Tree {
     use crate::model::{Node, Tree};
     fn walk(dir: &std::path::Path, prefix: &str, t: &mut Tree) {
         let mut entries: Vec<_> = std::fs::read_dir(dir).unwrap().filter_map(|e| e.ok()).collect();
@@ -27,6 +44,6 @@ pub fn fixture_tree() -> crate::model::Tree {
         }
     }
     let mut t = Tree::new();
-    walk(&fixture_dir(), "", &mut t);
+    walk(dir, "", &mut t);
     t
 }
